@@ -463,6 +463,7 @@ fn gen_bytes(u: &mut U) -> Vec<u8> {
             v
         }
         4 => vec![[0x00u8, 0x0a, 0x2d, 0x80, 0xff][u.below(5)]],
+        7 => crate::gen::TRICKY_BYTES[u.below(crate::gen::TRICKY_BYTES.len())].to_vec(),
         6 => {
             // larger than one read() chunk / one pipe buffer: the whole input must be used on every channel
             let n = [8191usize, 8192, 8193, 12_000, 20_000, 65_535, 65_536, 65_537, 100_000][u.below(9)];
